@@ -420,6 +420,14 @@ def gen_bg(rng: random.Random, d: dict, focus: dict) -> list[dict]:
         for rec in v['records']:
             custom_span |= set(range(rec['pos'], rec['pos'] + len(rec['ref'])))
     plan = [(rng.choice(kinds), rng.randint(lo, hi)) for _ in range(rng.choice(focus.get('n_bg', [1, 1, 2, 3, 4])))]
+    if focus.get('bg_on_custom') and rng.random() < focus['bg_on_custom']:
+        # a coordinate-shifting variant touching a custom record (its start, its end, the base after it): tried at several spots
+        crecs = [rec for v in (d.get('vcfs') or []) for rec in v['records'] if rec.get('contig', d['contig']) == d['contig'] and rec.get('alts')]
+        rng.shuffle(crecs)
+        for rec in crecs[:3]:
+            s_, e_ = rec['pos'], rec['pos'] + len(rec['ref']) - 1
+            for _k in range(3):
+                plan.insert(0, ('del', rng.randint(max(lo, s_ - 3), max(lo, e_))) if rng.random() < 0.6 else ('ins', rng.randint(max(lo, s_ - 1), max(lo, e_))))
     if focus.get('bg_upstream'):
         # a coordinate-shifting variant upstream of (or inside, before region 2 of) a targeton: tried at several spots
         for t in d['targetons']:
